@@ -2,7 +2,7 @@
 """Print the markdown table of seeded breaking changes and which check reported what (DESIGN.md Appendix D)."""
 import glob, json, os
 rows = []
-c1 = c2 = 0
+c1 = c2 = c3 = 0
 for f in sorted(glob.glob('/verif/seeded/*/meta.json')):
     m = json.load(open(f)); c = m['confirmation']; r = m.get('rechecks') or []
     first = 'caught' if c['caught_by_quick'] else 'missed'
@@ -15,6 +15,10 @@ for f in sorted(glob.glob('/verif/seeded/*/meta.json')):
         if r[-1].get('no_failing_input_found'):
             final += ' (no-failing-input-found)'
         rep = (r[-1].get('reported') or {}).get('what') or rep
+    others = [p for p, v in (m.get('also_checked') or {}).items() if v.get('caught')]
+    if not final.startswith('caught') and others:
+        final = 'missed by ' + m['property'] + ', caught by ' + '/'.join(others)
+        c3 += 1
     c1 += first.startswith('caught'); c2 += final.startswith('caught')
     def cell(s, n):
         s = (s or '').replace('|', '\\|').replace('\n', ' ')
@@ -24,4 +28,4 @@ print('| id | change (as described by its author) | needs to manifest | first re
 print('|---|---|---|---|---|---|')
 print('\n'.join(rows))
 n = len(rows)
-print(f'\n{n} seeded changes; caught at first rehearsal: {c1}; caught now: {c2}.')
+print(f'\n{n} seeded changes; caught by the property\'s own check at first rehearsal: {c1}; now: {c2}; caught only by another property\'s check: {c3}; caught by no check: {n - c2 - c3}.')
